@@ -33,6 +33,8 @@ OpsOf(s) ==
         THEN {[op |-> "AddStyle", s |-> i, b |-> b, x |-> x, y |-> y] : i \in Ids, b \in Bs, x \in BOOLEAN, y \in YB} ELSE {})
   \cup (IF "RemoveStyle" \in OpNames THEN {[op |-> "RemoveStyle", s |-> i] : i \in Qs} ELSE {})
   \cup (IF "Create" \in OpNames THEN {[op |-> "Create", s |-> i, b |-> b] : i \in Ids, b \in Bs} ELSE {})
+  \cup (IF "Edit" \in OpNames
+        THEN {[op |-> "Edit", s |-> i, b |-> b, x |-> x, y |-> y] : i \in Ids, b \in Bs \cup {"keep"}, x \in BOOLEAN, y \in YB} ELSE {})
   \cup {[op |-> n, q |-> q] : n \in OpNames \cap {"Resolve", "ToXML", "Info", "MutRes"}, q \in Qs}
   \cup {[op |-> n] : n \in OpNames \cap (CloneOps \cup {"List"})}
 
@@ -77,7 +79,7 @@ Consults(reg, q, s) ==
   \/ (q \in DOMAIN reg /\ reg[Chain(reg, q)[Len(Chain(reg, q))]].b = s)
 Act_Frame ==
   [][LET op == hist'[1] IN
-        op.op \in {"AddStyle", "RemoveStyle", "Create"} =>
+        op.op \in {"AddStyle", "RemoveStyle", "Create", "Edit"} =>
            \A q \in Qs : ~Consults(st.reg, q, op.s) => Resolve(st'.reg, q) = Resolve(st.reg, q)]_vars
 \* resolving, describing and cloning are not transitions of the registry
 Act_ReadOnly ==
@@ -111,6 +113,8 @@ MutOpsEnum(m) ==
             {t \in Ids \X Bs \X BOOLEAN \X BOOLEAN : t[4] \in YFor(t[3], m)}}
   \cup {[op |-> "RemoveStyle", s |-> i] : i \in Qs}
   \cup {[op |-> "Create", s |-> i, b |-> b] : i \in Ids, b \in Bs}
+  \cup {[op |-> "Edit", s |-> i, b |-> b, x |-> x, y |-> y] : <<i, b, x, y>> \in
+            {t \in Ids \X (Bs \cup {"keep"}) \X BOOLEAN \X BOOLEAN : t[4] \in YFor(t[3], m) /\ (t[2] # "keep" \/ t[3] \/ t[4])}}
 RmrOf(bs, xs, ys, q, mu) ==
   <<CaseOf(bs, xs, ys, q)[1], [op |-> "Resolve", q |-> q], mu, [op |-> "Resolve", q |-> q]>>
 
